@@ -533,6 +533,92 @@ theorem vault_read_survives_wrong_kind_reply_partial (padKey : Nat → Nat) (key
   rw [htxflag, kadSplitReply_of_pad m (by obtain ⟨r, hr, q, hq, _⟩ := hex; exact ⟨r, hr, q, hq⟩)]
   exact vault_returns_authentic_max padKey key m hpadflag hregflag hcf hnr hnt hex
 
+/-! ### The write path's read (`get_or_create_scratchpad`): a failed read is not "no vault yet" -/
+
+/-- the vault read fails with the network's `RecordNotFound` only when that is what the network layer answered -/
+theorem vault_not_found_only_from_not_found (padKey : Nat → Nat) (key : Nat) (reply : Reply B)
+    (h : getVault padKey key reply = .error (.network "nf")) : reply = .err .notFound := by
+  unfold getVault getVaultWith getVaultWith2 at h
+  cases reply with
+  | ok r =>
+    simp only [netGetWith] at h
+    split at h
+    · cases h
+    · split at h <;> cases h
+  | err e =>
+    cases e with
+    | notFound => rfl
+    | split m =>
+      simp only [netGetWith] at h
+      cases hs : handleSplit Gen.ClientRead.netSplitChecksPadKey Gen.ClientRead.netSplitRegChecksKey padKey (padKey key) m with
+      | some r =>
+        simp only [hs] at h
+        split at h
+        · cases h
+        · split at h <;> cases h
+      | none =>
+        simp only [hs] at h
+        split at h
+        · split at h <;> cases h
+        · cases h
+    | timeout => simp [netGetWith, netErrClass] at h
+    | kindMismatch => simp [netGetWith, netErrClass] at h
+    | notEnoughCopies => simp [netGetWith, netErrClass] at h
+    | doesNotMatch => simp [netGetWith, netErrClass] at h
+
+/-- Repaired shape: the write path starts a NEW vault (counter 0, paid for again) only when the network said there is
+no record at the vault's address. A time-out, too few copies, a forged or foreign pad at the address fail the write
+instead of silently starting over (holders of a newer version would refuse the new counter-1 version: the user's write
+was lost and paid for). -/
+theorem vault_write_starts_over_only_when_not_found (padKey : Nat → Nat) (key : Nat) (reply : Reply B)
+    (h : getOrCreateWith true padKey key reply = .fresh) : reply = .err .notFound := by
+  unfold getOrCreateWith at h
+  split at h
+  · cases h
+  · rename_i e he
+    simp only [Bool.not_true, Bool.false_eq_true, ↓reduceIte] at h
+    split at h
+    · rename_i cls
+      split at h
+      · rename_i hc
+        subst hc
+        exact vault_not_found_only_from_not_found padKey key reply he
+      · cases h
+    · cases h
+
+/-- … and what it continues is an authentic version, of the highest counter among those received -/
+theorem vault_write_continues_authentic (onlyNf : Bool) (padKey : Nat → Nat) (key : Nat) (reply : Reply B) (p : Pad)
+    (h : getOrCreateWith onlyNf padKey key reply = .existing p) :
+    Authentic key p ∧ ∀ q, ReceivedVersion reply q → Authentic key q → q.ctr ≤ p.ctr := by
+  unfold getOrCreateWith at h
+  split at h
+  · rename_i p' hp
+    simp only [WriteStart.existing.injEq] at h
+    subst h
+    obtain ⟨ha, _, hmax⟩ := vault_authentic padKey key reply p' hp
+    exact ⟨ha, hmax⟩
+  · split at h
+    · cases h
+    · split at h
+      · split at h <;> cases h
+      · cases h
+
+/-- the code as it is, conditional on the regenerated flag -/
+theorem vault_write_fresh_only_when_not_found (padKey : Nat → Nat) (key : Nat) (reply : Reply B)
+    (hflag : Gen.ClientRead.vaultWriteCreatesOnlyOnNotFound = true)
+    (h : getOrCreate padKey key reply = .fresh) : reply = .err .notFound := by
+  unfold getOrCreate at h
+  rw [hflag] at h
+  exact vault_write_starts_over_only_when_not_found padKey key reply h
+
+/-- FALSE of the code as it was: a time-out of the read, or a forged pad at the address, started a new vault -/
+theorem vault_write_started_over_on_any_error_witness :
+    getOrCreateWith (B := Nat) false id 0 (.err .timeout) = .fresh ∧
+    getOrCreateWith (B := Nat) false id 0 (.ok ⟨some .scratchpad, .pad unsigned⟩) = .fresh ∧
+    getOrCreateWith (B := Nat) true id 0 (.err .timeout) = .error "to" ∧
+    getOrCreateWith (B := Nat) true id 0 (.err .notFound) = .fresh := by
+  refine ⟨rfl, rfl, rfl, rfl⟩
+
 /-! ### no_authentic_no_data -/
 
 /-- No received record carries content that hashes to the requested address ⇒ the chunk read fails. -/
@@ -626,6 +712,10 @@ end SafeNet.Props.C15
 #print axioms SafeNet.Props.C15.vault_content_type_holder_controlled
 #print axioms SafeNet.Props.C15.vault_content_type_forged_witness
 #print axioms SafeNet.Props.C15.vault_content_type_partial
+#print axioms SafeNet.Props.C15.vault_write_starts_over_only_when_not_found
+#print axioms SafeNet.Props.C15.vault_write_continues_authentic
+#print axioms SafeNet.Props.C15.vault_write_fresh_only_when_not_found
+#print axioms SafeNet.Props.C15.vault_write_started_over_on_any_error_witness
 #print axioms SafeNet.Props.C15.split_returns_authentic_max_checked
 #print axioms SafeNet.Props.C15.split_foreign_pad_hides_authentic_witness
 #print axioms SafeNet.Props.C15.vault_authentic_any
